@@ -33,11 +33,16 @@ def snapshot(d):
                 meta = json.load(open(mp))
             except Exception as ex:
                 meta = {'unreadable': str(ex)}
-    pools = {}
+    sigs = {}
+    import pickle
     for f in files:
         if f.startswith('canonical_peptides_'):
-            pools[f] = hashlib.sha256(open(os.path.join(d, f), 'rb').read()).hexdigest()[:12]
-    return dict(meta=meta, files=files, pool_hashes=pools)
+            try:
+                pool = pickle.load(open(os.path.join(d, f), 'rb'))
+                sigs[f] = hashlib.sha256('\n'.join(sorted(pool)).encode()).hexdigest()[:12]
+            except Exception as ex:
+                sigs[f] = 'unreadable'
+    return dict(meta=meta, files=files, pool_sigs=sigs)
 
 
 def main():
